@@ -1,6 +1,6 @@
 import FrappyProofs.Lemmas.Rotate
 import FrappyProofs.Lemmas.Logging
-import FrappyModel.Generated.Tables
+import FrappyModel.Generated.C20
 /-
 C20 — property theorems (nothing but property theorems and their non-vacuity examples).
 -/
@@ -256,12 +256,12 @@ theorem others_unaffected (t : Tables) (mods : List String) (s : Subs) (cur : Cu
 
 /-- the generated level table contains `off` with the code's `OFF` constant (what `reset_connection` relies on) -/
 theorem generated_off :
-    checkLevel ⟨Generated.logLevels, Generated.logOff⟩ (.name "off") = some Generated.logOff := by decide +kernel
+    checkLevel ⟨Generated.C20.logLevels, Generated.C20.logOff⟩ (.name "off") = some Generated.C20.logOff := by decide +kernel
 
 /-- non-vacuity: two connections, two modules; conn 1 asks for `info` on everything, conn 2 for `error` on `a`;
 a warning of `a` goes to 1 only, an error to both, and after `*IDN?` of 1 only to 2. -/
 example :
-    run ⟨Generated.logLevels, Generated.logOff⟩ ["a", "b"] []
+    run ⟨Generated.C20.logLevels, Generated.C20.logOff⟩ ["a", "b"] []
       [.logging 1 none (.name "info"), .logging 2 (some "a") (.name "ERROR"), .emit "a" 30, .emit "a" 40,
        .ident 1, .emit "a" 40, .emit "b" 40]
     = [.ok, .ok, .delivered [1], .delivered [1, 2], .ok, .delivered [2], .delivered []] := by decide +kernel
